@@ -131,6 +131,20 @@ Theorem C12_served_text_is_canonical : forall txt raw, decode_token true txt = S
 Proof. exact served_text_canonical. Qed.
 Print Assumptions C12_served_text_is_canonical.
 
+(* ---- "a server holding the same key": crypto.normalize_key (32 bytes: as is; otherwise SHA-256) sends distinct operator
+        keys to distinct AEAD keys, except a key and its own 32-byte digest -- under collision-freeness of the hash ---- *)
+Theorem C12_normalize_key_injective : forall (sha256 : bytes -> bytes) k1 k2,
+  (forall x y, sha256 x = sha256 y -> x = y) ->
+  normalize_key_with sha256 k1 = normalize_key_with sha256 k2 ->
+  k1 = k2 \/ (blen k1 = KEY_LEN /\ blen k2 <> KEY_LEN /\ k1 = sha256 k2)
+          \/ (blen k2 = KEY_LEN /\ blen k1 <> KEY_LEN /\ k2 = sha256 k1).
+Proof. exact normalize_key_injective. Qed.
+Print Assumptions C12_normalize_key_injective.
+(* a 33-byte key is NOT used by its first 32 bytes *)
+Example C12_ex_normalize : normalize_key_with (fun _ => [1]) (repeat 7 32) = repeat 7 32 /\
+                           normalize_key_with (fun _ => [1]) (repeat 7 33) = [1].
+Proof. vm_compute; split; reflexivity. Qed.
+
 (* ---- non-vacuity: a concrete world (table AEAD with two sealed payloads) ---- *)
 Definition ex_key : bytes := repeat 7 32.
 Definition ex_ident : identity := Authd [106;119;116] [97;108;105;99;101].            (* ("jwt", "alice") *)
